@@ -242,8 +242,13 @@ def check(case):
         forms = [("str", reading), ("list", [c == "1" for c in reading]), ("int", int(reading, 2))]
         for fname, form in forms:
             try:
+                keep_form = list(form) if isinstance(form, list) else form
                 got = qf.decode_output(form)
                 cnt["decode_checked"] = cnt.get("decode_checked", 0) + 1
+                if form != keep_form:
+                    fail("decode_output_changed_its_argument", f"decode_output({keep_form!r}) left the caller's reading as {form!r}")
+                elif isinstance(form, list) and not same_value(ret, qf.decode_output(form), exp_val):
+                    fail("decode_output_second_call", f"a second decode_output of the same list reading {keep_form!r} gives another value")
                 if not same_value(ret, got, exp_val):
                     fail(f"decode_output_{fname}", f"decode_output({form!r}) = {got!r}, the reading spells {exp_val!r} in type {codec.annotation(ret)}",
                          pred="c05_decode_output_int_padding" if fname == "int" and reading.startswith("0") else None)
